@@ -448,6 +448,60 @@ theorem orderedDeps_spec (g : Graph) (r : Mod → Nat) (hr : Ranked g r) (fuel :
   rw [← hu]
   exact ⟨hinv.sub x, subset_of_nodup_length out (dedup deps) hinv.nodup hinv.sub hun hlen x⟩
 
+/-! ### finite graphs: no cycle ⇒ a rank exists -/
+
+theorem countP_le_of_imp (p q : Mod → Bool) (l : List Mod) (h : ∀ x ∈ l, p x = true → q x = true) :
+    l.countP p ≤ l.countP q := by
+  induction l with
+  | nil => simp
+  | cons a as ih =>
+    have ih' := ih (fun x hx => h x (List.mem_cons_of_mem _ hx))
+    have ha := h a (List.mem_cons_self ..)
+    simp only [List.countP_cons]
+    cases hp : p a <;> cases hq : q a <;> simp_all <;> omega
+
+theorem countP_lt_of_imp (p q : Mod → Bool) (l : List Mod) (h : ∀ x ∈ l, p x = true → q x = true)
+    (x : Mod) (hx : x ∈ l) (hqx : q x = true) (hpx : p x = false) : l.countP p < l.countP q := by
+  induction l with
+  | nil => cases hx
+  | cons a as ih =>
+    simp only [List.countP_cons]
+    have hle := countP_le_of_imp p q as (fun y hy => h y (List.mem_cons_of_mem _ hy))
+    simp only [List.mem_cons] at hx
+    rcases hx with rfl | hx
+    · simp [hqx, hpx]; omega
+    · have := ih (fun y hy => h y (List.mem_cons_of_mem _ hy)) hx
+      have ha := h a (List.mem_cons_self ..)
+      cases hp : p a <;> cases hq : q a <;> simp_all <;> omega
+
+open Classical in
+/-- on a graph whose dependency lists mention registered modules only, the number of modules reachable
+from `m` is a rank as soon as no module reaches itself. -/
+theorem ranked_of_no_cycle (g : Graph) (hclosed : ∀ m, ∀ d ∈ g.depsOf m, d < g.n) (hno : ∀ m, ¬ Reach g m m) :
+    ∃ r, Ranked g r := by
+  refine ⟨fun m => (List.range g.n).countP (fun x => decide (Reach g m x)), ?_⟩
+  intro m d hd
+  apply countP_lt_of_imp _ _ _ _ d (List.mem_range.mpr (hclosed m d hd))
+  · simpa using (Reach.direct hd : Reach g m d)
+  · simpa using hno d
+  · intro x _ hx
+    simp only [decide_eq_true_eq] at hx ⊢
+    exact .step hd hx
+
+/-- **`listDeps` returns for every module iff the graph is acyclic** (finite, well-formed graph). -/
+theorem listDeps_terminates_iff (g : Graph) (hclosed : ∀ m, ∀ d ∈ g.depsOf m, d < g.n) :
+    (∀ m, ∃ fuel l, listDeps g fuel m = some l) ↔ ∃ r, Ranked g r := by
+  constructor
+  · intro h
+    apply ranked_of_no_cycle g hclosed
+    intro m hm
+    obtain ⟨fuel, l, hl⟩ := h m
+    rw [listDeps_cycle g fuel m hm] at hl
+    cases hl
+  · rintro ⟨r, hr⟩ m
+    obtain ⟨l, hl⟩ := listDeps_some g r hr (r m + 1) m (Nat.lt_succ_self _)
+    exact ⟨_, l, hl⟩
+
 /-! ### `AddDependency` -/
 
 theorem depsOf_setDeps (g : Graph) (name : Mod) (ds : List Mod) (hn : name < g.deps.length) (m : Mod) :
@@ -465,7 +519,7 @@ theorem depsOf_setDeps (g : Graph) (name : Mod) (ds : List Mod) (hn : name < g.d
     | some l => simp [hm]
 
 theorem addCheck_ok (g : Graph) (fuel : Nat) (name : Mod) (ds : List Mod) (h : addCheck g fuel name ds = .ok) :
-    ∀ d ∈ ds, g.has d = true ∧ ∃ l, listDeps g fuel d = some l ∧ name ∉ l := by
+    ∀ d ∈ ds, g.has d = true ∧ d ≠ name ∧ ∃ l, listDeps g fuel d = some l ∧ name ∉ l := by
   induction ds with
   | nil => intro d hd; cases hd
   | cons a as ih =>
@@ -475,26 +529,29 @@ theorem addCheck_ok (g : Graph) (fuel : Nat) (name : Mod) (ds : List Mod) (h : a
     · rename_i hhas
       split at h
       · cases h
-      · rename_i prev hprev
+      · rename_i hself
         split at h
         · cases h
-        · rename_i hnc
-          intro d hd
-          simp only [List.mem_cons] at hd
-          rcases hd with rfl | hd
-          · refine ⟨by simpa using hhas, ?_⟩
-            unfold dependenciesFor at hprev
-            cases hl : listDeps g fuel d with
-            | none => rw [hl] at hprev; cases hprev
-            | some l =>
-              rw [hl] at hprev
-              simp at hprev
-              subst hprev
-              refine ⟨l, rfl, ?_⟩
-              intro hin
-              apply hnc
-              simpa using (mem_dedup l name).mpr hin
-          · exact ih h d hd
+        · rename_i prev hprev
+          split at h
+          · cases h
+          · rename_i hnc
+            intro d hd
+            simp only [List.mem_cons] at hd
+            rcases hd with rfl | hd
+            · refine ⟨by simpa using hhas, hself, ?_⟩
+              unfold dependenciesFor at hprev
+              cases hl : listDeps g fuel d with
+              | none => rw [hl] at hprev; cases hprev
+              | some l =>
+                rw [hl] at hprev
+                simp at hprev
+                subst hprev
+                refine ⟨l, rfl, ?_⟩
+                intro hin
+                apply hnc
+                simpa using (mem_dedup l name).mpr hin
+            · exact ih h d hd
 
 theorem le_sum_of_mem (f : Mod → Nat) (l : List Mod) (x : Mod) (h : x ∈ l) : f x ≤ (l.map f).sum := by
   induction l with
@@ -506,11 +563,10 @@ theorem le_sum_of_mem (f : Mod → Nat) (l : List Mod) (x : Mod) (h : x ∈ l) :
     · have := ih h; omega
 
 open Classical in
-/-- **AddDependency keeps the graph acyclic — for new dependencies other than the module itself.**
-(The check looks for `name` among the transitive dependencies of each new dependency; `newDep = name`
-slips through: see `self_dependency_accepted`.) -/
+/-- **AddDependency keeps the graph acyclic**: whatever would close a cycle — through existing edges or
+as a self dependency — is rejected. -/
 theorem addDependency_acyclic (g : Graph) (hg : Acyclic g) (fuel : Nat) (name : Mod) (ds : List Mod) (g' : Graph)
-    (h : addDependency g fuel name ds = (.ok, g')) (hne : ∀ d ∈ ds, d ≠ name) : Acyclic g' := by
+    (h : addDependency g fuel name ds = (.ok, g')) : Acyclic g' := by
   unfold addDependency at h
   split at h
   · cases h
@@ -521,12 +577,13 @@ theorem addDependency_acyclic (g : Graph) (hg : Acyclic g) (fuel : Nat) (name : 
     · rename_i hck
       cases h
       have hchk := addCheck_ok g fuel name ds hck
+      have hne : ∀ d ∈ ds, d ≠ name := fun d hd => (hchk d hd).2.1
       obtain ⟨r, hr⟩ := hg.ranked
       have hdep := depsOf_setDeps g name ds hnl
       -- the new dependencies do not reach `name`
       have hnr : ∀ d ∈ ds, ¬ Reach g d name := by
         intro d hd hreach
-        obtain ⟨_, l, hl, hnl'⟩ := hchk d hd
+        obtain ⟨_, _, l, hl, hnl'⟩ := hchk d hd
         exact hnl' ((listDeps_mem g fuel d l hl name).mpr hreach)
       refine ⟨?_, ?_, ?_⟩
       · -- shift the rank of everything that reaches `name` above the new dependencies
